@@ -159,7 +159,7 @@ PostPowInt(x, n, p, rnd, o) ==
              /\ (rnd = "n" => WithinUlpsQ2(r, q.neg, q.N, q.D, q.k, p, 1))
              /\ (Toward(rnd, q.neg) => cmpv >= 0)
              /\ (Away(rnd, q.neg) => cmpv <= 0)
-             /\ (ZBitLen(x.m) * IAbs(n) <= 200 => IsRoundQ2(r, q.neg, q.N, q.D, q.k, p, rnd))
+             /\ (n > 0 /\ ZBitLen(x.m) * n <= 200 => IsRoundQ2(r, q.neg, q.N, q.D, q.k, p, rnd))
 
 (*************************** C05: comparison and hashing *******************)
 \* exact three-way comparison of two non-nan values; infinities ordered as usual
